@@ -211,10 +211,64 @@ func genC01(r *rng, n int) {
 					}
 					emit(4, p, obs)
 				}
+				// the same single step on the descriptor-carrying value (typed vs untyped agreement)
+				tparent := rootVal.GetByPath(toPath(p[:len(p)-1])...)
+				last := p[len(p)-1]
+				if !tparent.IsError() && last.Kind != 5 {
+					var tsub generic.Value
+					ok, _ := noPanic(func() {
+						switch last.Kind {
+						case 1:
+							tsub = tparent.Field(thrift.FieldID(last.N))
+						case 2:
+							tsub = tparent.Index(int(last.N))
+						case 3:
+							tsub = tparent.GetByStr(string(last.B))
+						case 4:
+							tsub = tparent.GetByInt(int(last.N))
+						}
+					})
+					if ok {
+						obs = observe(buf, tsub.Node)
+					} else {
+						obs = panicObs
+					}
+					emit(5, p, obs)
+				}
+			}
+		}
+		// integer keys OUTSIDE the range of the map's key type whose low bits equal a present key: absent for every API
+		intKeyProbes := func(p []Step) {
+			last := p[len(p)-1]
+			if last.Kind != 4 {
+				return
+			}
+			pv := val.at(p[:len(p)-1])
+			if pv == nil || pv.T.K != thrift.MAP {
+				return
+			}
+			var w uint
+			switch pv.T.Key.K {
+			case thrift.I08:
+				w = 8
+			case thrift.I16:
+				w = 16
+			case thrift.I32:
+				w = 32
+			default:
+				return
+			}
+			for _, d := range []int64{int64(1) << w, -(int64(1) << w), int64(1) << (w + 1)} {
+				q := append([]Step(nil), p...)
+				q[len(q)-1] = Step{Kind: 4, N: last.N + d}
+				run(q)
 			}
 		}
 		for _, p := range paths {
 			run(p)
+			if len(p) > 0 {
+				intKeyProbes(p)
+			}
 			// invalid variants: perturb the last step / append a bad step
 			if r.chance(40) {
 				parent := val.at(p)
@@ -261,6 +315,9 @@ func genC01(r *rng, n int) {
 		genC01More(r, g, root, desc, val, buf, paths)
 		if vi < 2 {
 			genC01Deep(r)
+		}
+		if vi%4 == 0 {
+			genC01Cast(r)
 		}
 	}
 }
